@@ -14,12 +14,12 @@ MANIFEST_META = {
         "guard": "verif",
         "enable": "go test -c -tags verif in /verif/harness (module verifharness, replace github.com/benbjohnson/litestream => /repo)",
         "baseline_off_cmd": "/verif/tools/baseline.sh",
-        "source_commits": ["18eadf4", "6fb4a7e", "c6fb1fc", "0835903", "8688370"],
+        "source_commits": ["18eadf4", "6fb4a7e", "c6fb1fc", "0835903", "8688370", "092b54f"],
         "add_only": True,
     },
     "not_applicable": {},
     "pending_reason": "check not built yet in this session (see DESIGN.md section 4 for the planned generated-input check); not claimed until it runs silently on the unchanged tree",
-    "notes": "Hook commits in /repo: 18eadf4 (WALReader.VerifPageMap), 6fb4a7e (VFSFile.VerifPoll), c6fb1fc (verifPhase: phase hook points in the sync/checkpoint/snapshot/close pipeline; an empty function without the verif tag), 0835903 (one more hook point before the PASSIVE checkpoint barrier), 8688370 (hook point between a snapshot's position and its reader). Genuine defects found by the checks were repaired with separate fix: commits in /repo (listed as fixed: lines in known_findings.txt); defects recorded rather than repaired are the finding: lines there. See DESIGN.md sections 9-12.",
+    "notes": "Hook commits in /repo: 18eadf4 (WALReader.VerifPageMap), 6fb4a7e (VFSFile.VerifPoll), c6fb1fc (verifPhase: phase hook points in the sync/checkpoint/snapshot/close pipeline; an empty function without the verif tag), 0835903 (one more hook point before the PASSIVE checkpoint barrier), 8688370 (hook point between a snapshot's position and its reader), 092b54f (verifVFSPhase: two hook points in the VFS background hydration and VFSFile.VerifHydration, vfs build tag only). Genuine defects found by the checks were repaired with separate fix: commits in /repo (listed as fixed: lines in known_findings.txt); defects recorded rather than repaired are the finding: lines there. See DESIGN.md sections 9-12.",
 }
 
 PROPS = {
@@ -353,7 +353,7 @@ PROPS = {
     "C18": {
         "manifest": {
             "text": "primary histories with growth, partial shrink (auto_vacuum FULL, incremental_vacuum), VACUUM, compaction and level-0 retention against a file replica; a VFSFile opened at a drawn point and polled at drawn points through a hook (the background ticker never fires); after open, after every poll, after time-travel and reset: FileSize and every page served by ReadAt equal an ordinary restore at the VFS position (or at the requested time), header bytes masked",
-            "note": "hydration, VFS write mode and VFS-side compaction are not exercised; one known finding (poll after a partial shrink) excluded by shape",
+            "note": "background hydration (temporary and persistent local file, reopened) is exercised with the hydration goroutine parked at two hook points; VFS write mode and VFS-side compaction are not exercised; two known findings (poll after a partial shrink, young replica) excluded by shape",
             "technique": "stateful property-based testing (rapid) with a differential oracle against ordinary restore",
         },
         "binary": "propsvfs",
@@ -361,7 +361,7 @@ PROPS = {
         "rule": ("histories of 8-30 steps over {application ops incl. delete+incremental_vacuum, SyncAndWait, Compact(l), Snapshot, vfs-open, vfs-poll, vfs-time(T), vfs-reset}; "
                  "page sizes 512..8192, auto_vacuum none/full/incremental, L0Retention 0 or 1ns. Non-trivial = a poll or plan consumed a file whose commit is smaller than the "
                  "previous commit, or a poll ran after the level-0 files it would have read were compacted away; distinct = hash of the case."
-                 ' Also: several replicated transactions of different kinds picked up by one poll; a reader holding the SHARED lock while the poller runs (compared after unlock); polls while a time-travel view is installed (the view must not move); half of the cases give the VFS file a two-page cache so that compared pages are fetched through the page index instead of a cached copy.'),
+                 ' Also: several replicated transactions of different kinds picked up by one poll; a reader holding the SHARED lock while the poller runs (compared after unlock); polls while a time-travel view is installed (the view must not move); half of the cases give the VFS file a two-page cache so that compared pages are fetched through the page index instead of a cached copy. Three in five cases open the file through VFS.Open with background hydration (temporary or persistent local file): the hydration goroutine runs freely or is parked (phase hook) after capturing its position or just before declaring itself complete while polls, resets, time travel and primary activity go on; vfs-hydrate-finish lets it complete and compares reads served from the hydrated file; vfs-close / vfs-reopen resume a persistent file after the replica moved on, compacted and retired level-0 files.'),
         "assumptions": ["file replica client", "build tags verif,vfs with cgo"],
         "runs": [
             {"name": "histories", "test": "TestProp_C18", "kind": "rapid", "checks_quick": 400, "checks_thorough": 2500, "shards": 6},
